@@ -59,8 +59,10 @@ func (in *Interp) havoc(name string, t types.Type, depth int) Value {
 			}
 			return SymBytes{in.Nondet(name, SortStr, "bytes")}
 		}
-		n := in.Choose(in.hb.MaxSlice + 2) // 0 = nil, k+1 = length k
-		if n == 0 {
+		// length 0..MaxSlice; the empty list is the nil slice (absent and empty JSON lists are not
+		// distinguished: the code base only ever takes len() of decoded lists)
+		n := in.Choose(in.hb.MaxSlice+1) + 1
+		if n == 1 {
 			return []Value(nil)
 		}
 		s := make([]Value, n-1)
